@@ -33,6 +33,9 @@ ASSUMPTIONS = {
 def load_contracts():
     for m in contracts.MODULES:
         importlib.import_module(m)
+    for c in REGISTRY:
+        if not c.replay and c.modes:
+            c.replay = contracts.DEFAULT_REPLAY.get(c.name) or next((v for k, v in contracts.DEFAULT_REPLAY_PREFIX.items() if c.name.startswith(k)), None)
     return {c.name: c for c in REGISTRY}
 
 
@@ -100,6 +103,27 @@ def native_replay(prop, contract, failed, outdir, hint_models):
     with open(path, "w") as f:
         json.dump(rec, f, indent=1, default=str)
     return path, found, detail
+
+
+def _ran_clean(detail):
+    """number of inputs the native search ran when it completed without finding a violation (0: it did not run)"""
+    if not detail or detail.get("error") or detail.get("found"):
+        return 0
+    return int(detail.get("tried") or 0)
+
+
+_SHA = {}
+
+
+def _current_sha(c):
+    if c is None:
+        return None
+    if c.name not in _SHA:
+        try:
+            _SHA[c.name] = engine.function_ast(c, REPO)[2]["sha1"]
+        except Exception:
+            _SHA[c.name] = None
+    return _SHA[c.name]
 
 
 def run_replay_file(prop, path):
@@ -240,7 +264,19 @@ def check_property(prop, cs, args, seed, lock, write_lock=False):
     undecided_contracts = {}
     for g in structural:
         messages.append("UNDECIDED %s[%s]: %s" % (g["contract"], g["mode"], g["error"].strip().splitlines()[-1]))
-        rc = max(rc, 3 if g["kind"] == "crash" else 2)
+        # a contract that stops applying although the text of its function is exactly the text the lock was written for is
+        # the machinery's own failure (exit 3); on a changed text it is "undecided by the proof" (bounded fall-back below)
+        cur = _current_sha(cs.get(g["contract"]))
+        locked = lock.get("_sha1", {}).get(g["contract"])
+        if g["kind"] != "crash" and g["mode"] == "capture":
+            pass
+        elif locked is not None and cur == locked and not write_lock:
+            messages.append("CHECKER-FAILURE %s: the contract no longer applies although the function text is unchanged (sha1 %s)" % (g["contract"], cur[:10]))
+            rc = max(rc, 3)
+        elif g["kind"] == "crash" and locked is None:
+            rc = max(rc, 3)
+        elif g["kind"] == "crash":
+            g["kind"] = "unsupported"      # engine met something it does not model in the changed text
         undecided_contracts.setdefault(g["contract"], g)
         if g["kind"] == "crash" and args.v:
             print(g["error"])
@@ -258,6 +294,9 @@ def check_property(prop, cs, args, seed, lock, write_lock=False):
         gcount[owner] = gcount.get(owner, 0) + 1
     if write_lock:
         lock[prop] = gcount
+        for g in gens:
+            if "error" not in g:
+                lock.setdefault("_sha1", {})[g["contract"]] = g["info"]["sha1"]
     else:
         want = lock.get(prop, {})
         if not args.only:
@@ -274,6 +313,7 @@ def check_property(prop, cs, args, seed, lock, write_lock=False):
     findings, fixed = read_known()
     violations = []
     known_seen = []
+    degraded = []
     fail_by_contract = {}
     for ob in failed:
         if ob.get("status") == "error":
@@ -308,8 +348,13 @@ def check_property(prop, cs, args, seed, lock, write_lock=False):
         if not found and not statement_level:
             # only helper obligations (C: invariants, hints, lemmas) fail and the bounded native search of the real code finds
             # no violation of the statement: the proof no longer fits the code -> undecided, not an alarm
-            messages.append("UNDECIDED %s: helper obligations no longer hold (%s) and the native search found no failing input" % (cname, ", ".join(f["name"] for f in fl[:3])))
-            rc = max(rc, 2)
+            ran = _ran_clean(detail)
+            messages.append("%s %s: helper obligations no longer hold (%s); %s" % ("DEGRADED" if ran else "UNDECIDED", cname, ", ".join(f["name"] for f in fl[:3]),
+                            ("the bounded native search of the real function ran %d inputs and found no violation: this function counts as bounded in this run, not proved" % ran) if ran
+                            else "no bounded native search is available for it"))
+            degraded.append(cname)
+            if not ran:
+                rc = max(rc, 2)
             continue
         violations.append({"contract": cname, "obligations": [f["name"] for f in fl], "replay": path, "found": found,
                            "detail": detail})
@@ -317,8 +362,13 @@ def check_property(prop, cs, args, seed, lock, write_lock=False):
     # subset): undecided by the proof; a bounded native search of the real code may still
     # demonstrate a violation, which is then reported with the replayed input
     for cname, g in sorted(undecided_contracts.items()):
-        c = cs[cname]
-        if not c.replay or cgroup_of.get(cname, cname) in fail_by_contract:
+        c = cs.get(cname)
+        if c is None or not c.replay or g["kind"] == "crash":
+            rc = max(rc, 2)
+            continue
+        if cgroup_of.get(cname, cname) in fail_by_contract:
+            if cname not in degraded:
+                rc = max(rc, 2)
             continue
         fake = [{"name": "%s[%s]/outside-the-verified-subset" % (cname, g["mode"]), "status": "undecided", "backend": "-", "line": 0,
                  "note": g["error"].strip().splitlines()[-1], "model": None, "path": []}]
@@ -329,6 +379,15 @@ def check_property(prop, cs, args, seed, lock, write_lock=False):
                 continue
             violations.append({"contract": cname, "obligations": [fake[0]["name"] + " (undecided by the proof; violation shown by the bounded native search)"],
                                "replay": path, "found": True, "detail": detail})
+        else:
+            ran = _ran_clean(detail)
+            if ran:
+                # the proof no longer applies to this function (its text left the verified subset or the sidecar's names);
+                # what was explored - the bounded native search of the real function - found no violation
+                messages.append("DEGRADED %s: undecided by the proof; the bounded native search of the real function ran %d inputs and found no violation: this function counts as bounded in this run, not proved" % (cname, ran))
+                degraded.append(cname)
+            else:
+                rc = max(rc, 2)
     for f in extra["failures"]:
         if f.get("crash"):
             rc = max(rc, 3)
@@ -409,8 +468,13 @@ def check_property(prop, cs, args, seed, lock, write_lock=False):
         "violations": len(violations),
         "known_findings_seen": known_seen,
         "messages": messages,
+        "degraded_to_bounded_in_this_run": sorted(set(degraded)),
     }
     nb_cases = sum(int(b.get("cases") or 0) for b in extra["bounded"])
+    if degraded:
+        ev["level"] = "other"
+        ev["coverage"]["degraded_note"] = ("in this run the proof did not apply to: %s (source changed beyond the sidecar contracts); those functions were only explored by the bounded "
+                                           "native search and are not counted as proved" % ", ".join(sorted(set(degraded))))
     if not (obligations and len(discharged) >= 1):
         ev["level"] = "other"
         ev["coverage"]["explanation"] = ("no function of this property is under a discharged contract in this snapshot: the property is decided by the bounded stand-ins listed "
